@@ -49,10 +49,7 @@ def dataset(kind, which):
 
 
 # recorded findings (known_findings.json): a crash is KNOWN only at the recorded site AND for the recorded kind of combination
-KNOWN_CRASHES = {
-    "exception:ValueError@output.py:463": lambda c, kind: c["t"] == "mapimpact" and c["m"] in ("rmsf", "ign0"),
-    "exception:ValueError@output.py:1990": lambda c, kind: c["m"] == "change" and kind == "single-time",
-}
+KNOWN_CRASHES = {}   # every crash found so far has been repaired upstream (known_findings.json: fixed entries)
 
 
 class _Timeout(Exception):
